@@ -1847,20 +1847,34 @@ func concatPkgLinkFiles(ctx *context, pkg *packages.Package, verbose bool) (part
 
 // const LLGoFiles = "file1; file2; ..."
 func llgoPkgLinkFiles(ctx *context, pkg *packages.Package, procFile func(linkFile string), verbose bool) {
-	if o := pkg.Types.Scope().Lookup("LLGoFiles"); o != nil {
-		val := o.(*types.Const).Val()
-		if val.Kind() == constant.String {
-			clFiles(ctx, constant.StringVal(val), pkg, procFile, verbose)
-		}
+	args, files := llgoFilesSpec(pkg)
+	for _, cFile := range files {
+		clFile(ctx, slices.Clone(args), cFile, pkg.ExportFile, pkg.PkgPath, procFile, verbose)
 	}
 }
 
+// llgoFilesSpec resolves the LLGoFiles constant of a package into the compiler
+// flags its optional "$...:" prefix expands to and the absolute paths of the
+// listed files. The same resolution is used to compile the files and to put
+// them into the cache manifest.
+//
 // files = "file1; file2; ..."
 // files = "$(pkg-config --cflags xxx): file1; file2; ..."
-func clFiles(ctx *context, files string, pkg *packages.Package, procFile func(linkFile string), verbose bool) {
+func llgoFilesSpec(pkg *packages.Package) (args []string, cFiles []string) {
+	if pkg == nil || pkg.Types == nil || len(pkg.GoFiles) == 0 {
+		return nil, nil
+	}
+	o := pkg.Types.Scope().Lookup("LLGoFiles")
+	if o == nil {
+		return nil, nil
+	}
+	val := o.(*types.Const).Val()
+	if val.Kind() != constant.String {
+		return nil, nil
+	}
+	files := constant.StringVal(val)
 	dir := filepath.Dir(pkg.GoFiles[0])
-	expFile := pkg.ExportFile
-	args := make([]string, 0, 16)
+	args = make([]string, 0, 16)
 	if strings.HasPrefix(files, "$") { // has cflags
 		if pos := strings.IndexByte(files, ':'); pos > 0 {
 			cflags := xenv.ExpandEnvToArgs(files[:pos])
@@ -1869,9 +1883,9 @@ func clFiles(ctx *context, files string, pkg *packages.Package, procFile func(li
 		}
 	}
 	for _, file := range strings.Split(files, ";") {
-		cFile := filepath.Join(dir, strings.TrimSpace(file))
-		clFile(ctx, args, cFile, expFile, pkg.PkgPath, procFile, verbose)
+		cFiles = append(cFiles, filepath.Join(dir, strings.TrimSpace(file)))
 	}
+	return args, cFiles
 }
 
 func clFile(ctx *context, args []string, cFile, expFile, pkgPath string, procFile func(linkFile string), verbose bool) {
